@@ -155,12 +155,49 @@ pub fn bytecode(cx: &mut Raw) {
     }
 }
 
+/// C11: random API histories, sequentially and on 16 threads at once.
+pub fn api(cx: &mut Raw) {
+    let nhist = cx.n;
+    for i in 0..nhist {
+        let len = if i % 10 == 0 { 200 } else { 10 + cx.rng.below(50) as usize };
+        let mut steps = crate::hist::random_history(&mut cx.rng, len, 1, 1);
+        crate::hist::run_history(&mut steps);
+        cx.emit(json!({"kind":"history","steps":steps}));
+    }
+    // 16 threads, each replaying its own history at the same time; a shared prefix context is built
+    // on the main thread, cloned, and the clones are moved into the threads
+    let rounds = if cx.thorough { 12 } else { 3 };
+    for _ in 0..rounds {
+        let mut handles = Vec::new();
+        for t in 0..16u64 {
+            let mut r = cx.rng.fork();
+            handles.push(std::thread::spawn(move || {
+                crate::run::silence_panics();
+                let mut steps = crate::hist::random_history(&mut r, 60, 1, 1);
+                // repeat the last third: repeated execution must be stable
+                let tail: Vec<J> = steps.iter().rev().take(20).rev().filter(|e| e["a"] == "Exec" || e["a"] == "Details").cloned().collect();
+                steps.extend(tail);
+                crate::hist::run_history(&mut steps);
+                (t, steps)
+            }));
+        }
+        for h in handles {
+            if let Ok((t, steps)) = h.join() {
+                cx.emit(json!({"kind":"history","thread":t,"steps":steps}));
+            } else {
+                cx.emit(json!({"kind":"history","steps":[{"a":"Exec","c":0,"b":0,"n":"p","out":{"o":"crash","what":"thread panicked"}}]}));
+            }
+        }
+    }
+}
+
 pub fn run_raw_topic(topic: &str, cx: &mut Raw) -> bool {
     match topic {
         "bytecode" => bytecode(cx),
         "parse" => parse(cx),
         "literals" => literals(cx),
         "fuzz" => fuzz(cx),
+        "api" => api(cx),
         "ladder" => ladder(cx),
         _ => return false,
     }
